@@ -250,7 +250,7 @@ func runC12Case(c c12Case) *c12Outcome {
 		if !errors.Is(run.WaitErr, errInjectedOnTracks) && !(c.Script == "ll" && run.WaitErr != nil && !isEOS) {
 			fail("ontracks-error", "%s: OnTracks returned an error but Wait() yielded %v", c, run.WaitErr)
 		}
-	case (c.Fault == "status404" || c.Fault == "status500" || c.Fault == "transport") && faultHit && !closed.Load():
+	case (c.Fault == "status404" || c.Fault == "status500" || c.Fault == "transport" || c.Fault == "transport-ctx" || c.Fault == "transport-deadline" || c.Fault == "body-ctx") && faultHit && !closed.Load():
 		if isEOS || run.WaitErr == nil {
 			fail("http-error-lost", "%s: request %d failed (%s) but Wait() yielded %v", c, c.At, c.Fault, run.WaitErr)
 		}
@@ -279,7 +279,7 @@ func runC12Case(c c12Case) *c12Outcome {
 func enumerateC12(script string, baseRequests, baseUnits int, tier string) []c12Case {
 	var cases []c12Case
 	cases = append(cases, c12Case{"C12", script, "none", 0, "none", 0, "once"})
-	for _, f := range []string{"status404", "status500", "transport", "stall", "truncate"} {
+	for _, f := range []string{"status404", "status500", "transport", "stall", "truncate", "transport-ctx", "transport-deadline", "body-ctx"} {
 		for i := 0; i < baseRequests; i++ {
 			cases = append(cases, c12Case{"C12", script, f, i, "none", 0, "once"})
 		}
@@ -417,7 +417,7 @@ func checkC12(tier string, seed int64) int {
 		PropertyID: "C12", Tier: tier, Seed: seed, Level: "fault_enumeration",
 		Coverage: map[string]any{
 			"evaluations": obs["cases"], "distinct_nontrivial": len(sigs),
-			"rule":               "four baseline scripts (MPEG-TS, fMP4 single playlist, fMP4 video + audio rendition, Low-Latency hints) with N requests and K delivered units each; enumerated completely per script: fault in {404, 500, transport error, body stalling until cancelled, truncated body} x request index 0..N-1, OnTracks error, Close at {before the first response, during request i for every i, inside OnTracks, inside the j-th OnData, during the pacing sleep after the j-th unit, after the end} x {once, three times, concurrently from two goroutines} (quick tier: every K/12-th unit); after each batch of 48 concurrent cases a goroutine census (runtime.Stack filtered to gohlslib client frames) must be empty; race detector on",
+			"rule":               "four baseline scripts (MPEG-TS, fMP4 single playlist, fMP4 video + audio rendition, Low-Latency hints) with N requests and K delivered units each; enumerated completely per script: fault in {404, 500, transport error, transport error wrapping context.Canceled / context.DeadlineExceeded (the transport's own context, not the client's), body stalling until cancelled, truncated body, body failing half-way with an error wrapping context.Canceled} x request index 0..N-1, OnTracks error, Close at {before the first response, during request i for every i, inside OnTracks, inside the j-th OnData, during the pacing sleep after the j-th unit, after the end} x {once, three times, concurrently from two goroutines} (quick tier: every K/12-th unit); after each batch of 48 concurrent cases a goroutine census (runtime.Stack filtered to gohlslib client frames) must be empty; race detector on",
 			"samples":            samples,
 			"observed":           obs,
 			"exhaustive":         tier == "thorough",
